@@ -186,7 +186,8 @@ SPECS = {
         ],
         "explanation": "Theorems: in every reachable state (lost responses and retries included) an honest client's sync is accepted and acknowledges all pending changes; (actor, clientSeq) rows are never duplicated; delivery stays exactly-once. Tied by replaying recorded traffic (including retried identical requests) through the model; oracles on the implementation: no duplicate (actor, clientSeq) row, convergence, retried request accepted.",
         "assumptions": [
-            "faults placed inside a request (between storage calls) are not yet part of this check; response loss and retry are",
+            "storage faults inside a request: the hist engine makes the n-th storage call of a sync fail, before or after it took effect (decorated database), and the client retries the identical pack; faults in the window between CreateChangeInfos and UpdateClientInfoAfterPushPull duplicate the pushed changes (finding P8, known; model witness C05_crash_in_push_window_refuted); histories with a fired fault are not replayed through the protocol model (it handles whole requests)",
+            "memory database only: the fault is an error returned by the storage interface, not a torn write inside one storage call",
         ],
     },
     "C06": {
